@@ -421,9 +421,13 @@ var (
 	x64GPR64 = []string{"rax", "rcx", "rdx", "rbx", "rsp", "rbp", "rsi", "rdi", "r8", "r9", "r10", "r11", "r12", "r13", "r14", "r15"}
 )
 
-// x64Aspects refines aspects for x86-64: a register that differs only in
-// width is "reg-width" (the encoder ignored the operand's size), a memory
-// operand that differs only in size is "mem-size".
+// x64Aspects refines aspects for x86-64.  Beyond the generic ones:
+//
+//	reg-width   same register, other width: the operand's size was ignored
+//	high8-rex   ah/ch/dh/bh in an instruction that needs a REX prefix (decodes as spl..dil)
+//	mem-size    same address, other operand size
+//	mem-base32  the 32-bit base register was encoded as its 64-bit parent (no 67h prefix)
+//	imm32-sext  a 64-bit operation got an imm32 ≥ 2^31, which the CPU sign-extends
 func x64Aspects(want, got dis, immRange bool) []string {
 	base := aspects(want, got, immRange)
 	if len(base) == 0 || base[0] == "undecodable" || base[0] == "op" || base[0] == "arity" {
@@ -438,36 +442,78 @@ func x64Aspects(want, got dis, immRange bool) []string {
 		wm, gm := strings.Contains(w, "["), strings.Contains(g, "[")
 		switch {
 		case wm && gm:
-			if w[strings.Index(w, "["):] == g[strings.Index(g, "["):] {
+			wa, ga := w[strings.Index(w, "["):], g[strings.Index(g, "["):]
+			switch {
+			case wa == ga:
 				seen["mem-size"] = true
-			} else {
+			case x64WidenBase(wa) == ga:
+				seen["mem-base32"] = true
+				if w[:strings.Index(w, "[")] != g[:strings.Index(g, "[")] {
+					seen["mem-size"] = true
+				}
+			case immRange:
+				seen["imm-range"] = true
+			default:
 				seen["mem"] = true
 			}
 		case wm != gm:
 			seen["mem"] = true
 		case strings.HasPrefix(w, "#") || strings.HasPrefix(w, "rel:"):
-			if immRange {
+			wv, _ := strconv.ParseInt(strings.TrimPrefix(strings.TrimPrefix(w, "#"), "rel:"), 10, 64)
+			gv, _ := strconv.ParseInt(strings.TrimPrefix(strings.TrimPrefix(g, "#"), "rel:"), 10, 64)
+			switch {
+			case immRange:
 				seen["imm-range"] = true
-			} else {
+			case wv >= 1<<31 && wv < 1<<32 && gv == wv-1<<32:
+				seen["imm32-sext"] = true
+			default:
 				seen["imm"] = true
 			}
 		default:
 			wn, _, wok := x64Family(w)
 			gn, _, gok := x64Family(g)
-			if wok && gok && wn == gn {
+			hi := map[string]string{"ah": "spl", "ch": "bpl", "dh": "sil", "bh": "dil"}
+			switch {
+			case wok && gok && wn == gn:
 				seen["reg-width"] = true
-			} else {
+			case hi[w] == g:
+				seen["high8-rex"] = true
+			default:
 				seen["reg"] = true
 			}
 		}
 	}
 	var out []string
-	for _, a := range []string{"reg", "reg-width", "mem", "mem-size", "imm-range", "imm"} {
+	for _, a := range []string{"reg", "reg-width", "high8-rex", "mem", "mem-base32", "mem-size", "imm-range", "imm32-sext", "imm"} {
 		if seen[a] {
 			out = append(out, a)
 		}
 	}
 	return out
+}
+
+// x64WidenBase rewrites "[ecx-1]" to "[rcx-1]".
+func x64WidenBase(addr string) string {
+	inner := strings.Trim(addr, "[]")
+	end := strings.IndexAny(inner, "+-")
+	if end < 0 {
+		end = len(inner)
+	}
+	if n, w, ok := x64Family(inner[:end]); ok && w == 4 {
+		return "[" + x64GPR64[n] + inner[end:] + "]"
+	}
+	return addr
+}
+
+// x64Key names a finding: operand-size handling is shared by all
+// instructions (BuildProg takes the size of the widest operand and
+// operand2P9Addr drops the rest), so those aspects get one key each.
+func x64Key(mn, aspect string) string {
+	switch aspect {
+	case "reg-width", "high8-rex", "mem-base32", "mem-size", "imm32-sext":
+		return "x64/any/" + aspect
+	}
+	return "x64/" + mn + "/" + aspect
 }
 
 // ---------------------------------------------------------------- oracle
@@ -528,7 +574,7 @@ func x64Check(k kase, mode llvmMode) (v verdict) {
 		if mode == llvmNever && llvmPath() != "" {
 			v.needLLVM = true
 			for _, a := range aspXa {
-				v.cand = append(v.cand, finding{pfx + a, desc})
+				v.cand = append(v.cand, finding{x64Key(k.As, a), desc})
 			}
 			indep = aspXa
 			goto own
@@ -549,7 +595,7 @@ func x64Check(k kase, mode llvmMode) (v verdict) {
 				texts += " | llvm-mc: " + ll.String()
 			}
 			for _, a := range as {
-				v.add(pfx+a, "%s; expected %q, independent decoders: %s", desc, want.String(), texts)
+				v.add(x64Key(k.As, a), "%s; expected %q, independent decoders: %s", desc, want.String(), texts)
 			}
 		}
 		switch {
